@@ -372,7 +372,9 @@ fn stream_complete(key: &StreamKey, v: &View) -> Result<bool, String> {
 pub fn idle_deadline_ns(v: &View, idx: u32, role: Role) -> Option<u64> {
     let o = v.out;
     let side = v.side(idx, role)?;
-    if v.closed_event(side).is_some() {
+    // (a close at the cap itself is the harness tearing the run down)
+    let cap_ns = o.plan.time_cap_us.saturating_mul(1000);
+    if v.closed_event(side).map_or(false, |c| c.0 + 1_000_000 < cap_ns) {
         return None;
     }
     let own = match role {
@@ -504,7 +506,7 @@ pub fn c02(v: &View) -> Vec<Violation> {
         if incomplete.is_empty() {
             continue;
         }
-        if !(fam.starts_with("c02.finite") || fam.starts_with("c02.block") || fam.starts_with("c01")) {
+        if !(fam.starts_with("c02.finite") || fam.starts_with("c02.block") || fam.starts_with("c02.partial_reads") || fam.starts_with("c01")) {
             continue;
         }
         if !o.app.capped_tasks.is_empty() || o.panic.is_some() {
@@ -542,10 +544,58 @@ pub fn c02(v: &View) -> Vec<Violation> {
             Some(_) => false,
         };
         if !excused {
+            // cause analysis for one known defect: a receiver that abandons a stream (STOP_SENDING)
+            // only tracks one missing range [received prefix, first FIN offset seen afterwards)
+            // (MissingData in receive_stream.rs): a FIN that arrived before the STOP_SENDING, or
+            // any out-of-order arrival afterwards, leaves it waiting for data or a RESET_STREAM
+            // that a sender whose stream is completely acknowledged never sends. The stream is
+            // never released and its stream-count credit never returned.
+            let mut stuck_stop = false;
+            for side in [cs, ss].iter().flatten() {
+                let mut stops: BTreeSet<u64> = BTreeSet::new();
+                for (i, t) in o.obs.tx.iter().enumerate() {
+                    if t.ep != side.ep || t.conn != side.conn {
+                        continue;
+                    }
+                    if let Ok(fr) = &v.tx_frames[i] {
+                        for f in fr {
+                            if let Frame::StopSending { id, .. } = f {
+                                stops.insert(*id);
+                            }
+                        }
+                    }
+                }
+                for id in &stops {
+                    let mut fin_seen = false;
+                    let mut reset_seen = false;
+                    for (i, r) in o.obs.rx.iter().enumerate() {
+                        if r.ep != side.ep || r.conn != side.conn {
+                            continue;
+                        }
+                        if let Ok(fr) = &v.rx_frames[i] {
+                            for f in fr {
+                                match f {
+                                    Frame::Stream { id: sid, fin, .. } if sid == id => fin_seen |= *fin,
+                                    Frame::ResetStream { id: sid, .. } if sid == id => reset_seen = true,
+                                    _ => {}
+                                }
+                            }
+                        }
+                    }
+                    // the peer finished the stream normally and (rightly) never reset it
+                    if fin_seen && !reset_seen {
+                        stuck_stop = true;
+                    }
+                }
+            }
             out.push(viol(
                 "C02",
                 "c02.undelivered",
-                format!("undelivered:{}", first_death.map_or("alive", |_| "died_after_recovery")),
+                if stuck_stop {
+                    "undelivered:stop_sending_on_stream_the_peer_finished_never_completes".to_string()
+                } else {
+                    format!("undelivered:{}", first_death.map_or("alive", |_| "died_after_recovery"))
+                },
                 format!(
                     "connection {idx}: {}/{} stream directions incomplete ({:?}) although the network was healthy from {} ms on; first fault at {:?} ms, connection deaths {:?} (ms)",
                     incomplete.len(), total,
